@@ -57,6 +57,11 @@ CLAIMED = {
         "For every DAG on up to 4 commits (5 thorough) and every pair of query commits, with commit timestamps as symbolic integers in [-2^40,2^40] (the code only compares/negates them, so all orderings incl. ties, backwards and negative clocks are covered): _find_lcas/find_merge_base return exactly the maximal common ancestors, can_fast_forward(a,b) <=> a is an ancestor of b, independent/find_octopus_base (thorough) are exact; Walker yields exactly the reachable set once each in date and topo order (never a parent before its child), and reachable(include)-reachable(exclude) under monotone clocks. Three genuine defects found by this check were repaired (fix: commits 77392fb, 0225633, 3a70501).",
         "Trusted: z3, ksym, CPython. Commits are real Commit objects with fixed ids in a dict-backed store (no serialisation); heapq runs natively on the proxies' comparison protocol.",
     ),
+    "C04": (
+        "bounded symbolic execution of the untrusted-input decoders (ksym, symbolic bytes) and solver-forked damage/fault positions over real pack ingestion on a real store",
+        "Decoders: parse_tree on every text of up to 5 bytes (strict/lenient), the packed-refs line splitter on short lines, read_index_header on all 2^96 headers and EWAHBitmap._decode with symbolic header/run-length fields terminate with their error family or bounded, in-range results (together with the pack header/offset/delta decoders decided under C02/C03 and the pkt-line parser under C19). Ingestion: a valid small pack with one symbolic damage (byte XOR 01/10/80/FF at any offset, truncation at any offset, appended tail) through add_pack()+commit and add_thin_pack on a real bare repository is either refused without a trace (visible objects, installed pack files, re-opened store unchanged) or every visible object hashes to its name; checksum-valid packs with an unparsable commit/tag/tree are refused without a trace; with EIO injected into any of the first 40 file-system calls the store shows all of the pack's objects or none; lookups in an installed pack damaged afterwards (one byte of the object area) fail with an ordinary error or return an object hashing to the requested name. One genuine defect was repaired. Damage that would have to get past zlib/SHA-1 undetected, decompression bombs and MemoryObjectStore are outside (the solver cannot invert those functions; an uninterpreted model would make the claim vacuous).",
+        "Trusted: z3, ksym, zlib and hashlib as executed concretely by the real code, the kernel file system on /dev/shm.",
+    ),
     "C05": (
         "bounded symbolic exploration of the object-selection core and the in-process fetch path (ksym): history shape, tag targets, gitlinks, haves and wants are solver-forked variables; oracle = reference closure",
         "For every history of 3 commits (all parent sets; two trees sharing a subtree, optionally with a gitlink whose target is itself a commit of the history), tag and tag-of-tag on any commit, every haves subset (receiver holds its closure) and every non-empty wants subset: the real MissingObjectFinder sends each object once, everything in closure(wants) is sent or already present, and nothing outside closure(wants) is sent. LocalGitClient.fetch between two real repositories (source loose or packed, branch anywhere, optional tag ref, receiver holding any complete sub-history): the receiver afterwards holds the complete closure of the fetched refs byte-identically and keeps what it had. Network transports, C git peers, capability negotiation, depth-limited fetches and the server-side want validation are outside this check (process/socket I/O is not reachable by this technique; the server's ack logic was not harnessed).",
